@@ -1,4 +1,5 @@
 from rogw.tranp.data.meta.types import ModuleMeta, ModuleMetaFactory
+from rogw.tranp.errors import Errors
 from rogw.tranp.file.loader import ISourceLoader
 from rogw.tranp.lang.annotation import implements, injectable
 from rogw.tranp.lang.locator import Invoker
@@ -89,9 +90,15 @@ class ModuleLoader(IModuleLoader):
 		Args:
 			module: モジュール
 		"""
-		for proc in self.processors():
-			if not proc(module, self.db):
-				break
+		try:
+			for proc in self.processors():
+				if not proc(module, self.db):
+					break
+		except Errors.Error:
+			raise
+		except Exception as e:
+			# XXX Procedureと同様に、未ハンドリングの不特定エラーはアプリケーション例外として通知
+			raise Errors.Fatal(module.module_path.path, 'Unhandled error', e) from e
 
 
 @injectable
